@@ -260,7 +260,7 @@ func runC16b(c c16bCase, o *vfutil.Obs) *vfutil.Failure {
 
 func TestVerifC16b(t *testing.T) {
 	defer l3Close()
-	vfutil.Run(t, vfutil.Spec[c16bCase]{ID: "C16", Gen: genC16b, Run: runC16b})
+	vfutil.Run(t, vfutil.Spec[c16bCase]{ID: "C16", Gen: genC16b, Run: runC16b, Journal: true})
 }
 
 // ------------------------------------------------------------------- C17b
@@ -382,5 +382,5 @@ func clipB(b []byte) []byte {
 
 func TestVerifC17b(t *testing.T) {
 	defer l3Close()
-	vfutil.Run(t, vfutil.Spec[c17bCase]{ID: "C17", Gen: genC17b, Run: runC17b})
+	vfutil.Run(t, vfutil.Spec[c17bCase]{ID: "C17", Gen: genC17b, Run: runC17b, Journal: true})
 }
